@@ -334,6 +334,8 @@ def blocks(tier, seed):
     pl = [(k, ln) for k in KINDS[:4] for ln in lens]
     pairs = [('00', '00'), ('01', '01'), ('01', '00'), ('80', '81'), ('81', '80'), ('00', 'ff'), ('7e', 'ff'), ('55', 'aa'), ('aa', 'aa')] + \
         [('%02x' % (1 << b), '%02x' % (1 << b)) for b in range(1, 8)] + [('%02x' % (1 << b), '%02x' % (0xff ^ (1 << b))) for b in range(1, 8)]
+    if not q:
+        pairs = list(dict.fromkeys(pairs + [('%02x' % f, '%02x' % a) for f in range(256) for a in (f, f ^ 0xff, 0xff)]))
     fl = [(k, f, a) for k in KINDS for f, a in pairs]
     cr = [(k, w) for k in KINDS for w in ('htlc', 'htlc2', 'ptlc', 'ptlc_tweaked', 'ptlc_refund')]
     dw = [(k, D) for k in KINDS for D in DEADLINES]
@@ -344,7 +346,7 @@ def blocks(tier, seed):
         Block('preimage_lengths', pl, preimage_lengths, 'preimage lengths %s x right/wrong x signer; SHAKE digest sizes 1,16,20,32,64' %
               ('1..64'), nshards=min(len(pl), 128)),
         Block('ptlc_tweak_scalars', tweak_scalars(seed), ptlc_tweaks, 'tweak scalars {1, L-1, clamped, unclamped, 2^254+} x witness kinds x signers', nshards=5),
-        Block('sigflags_and_fields', fl, flags_case, 'flag/allowed pairs (every single bit permitted / alone not permitted, mixed patterns) x covered / excluded field changes, both paths', nshards=len(fl)),
+        Block('sigflags_and_fields', fl, flags_case, 'flag/allowed pairs (every single bit permitted / alone not permitted, mixed patterns) x covered / excluded field changes, both paths', nshards=min(len(fl), 256)),
         Block('cross_pairings', cr, cross_case, 'all witness kinds x all lock kinds x signers x preimage choices', nshards=len(cr)),
     ]
 
